@@ -694,7 +694,9 @@ def x_from_private(c):
 
 @ext("cryptography.hazmat.primitives.asymmetric.ed25519.Ed25519PrivateKey.generate")
 def x_generate(c):
-    c.ret(None, ("type", c.term, frozenset([ED_PRIV])), pure=False, extra_event=("ambient", c.site, c.callee))
+    # every call yields a different key: the result term carries its call site
+    t = CallT(c.callee, c.args, tuple(c.kwargs) + (("@site", C("%s:%d:%d" % c.site[:3])),))
+    c.ret(t, ("type", t, frozenset([ED_PRIV])), pure=False, extra_event=("ambient", c.site, c.callee))
 
 
 @ext("securesystemslib.*", "pygments.*", "pprint.*", "conda.*")
